@@ -102,6 +102,10 @@ impl Mon for F {
 /// reference number: exact equality for `Q`/`Fp`, absolute tolerance for floats
 trait RefNum: Mon {
     fn close(self, o: Self, tol: f64) -> bool;
+    /// magnitude, for scaling an absolute tolerance (1 for the exact tiers, which ignore tolerances)
+    fn approx_abs(self) -> f64 {
+        1.0
+    }
 }
 impl RefNum for Q {
     fn close(self, o: Q, _tol: f64) -> bool {
@@ -116,6 +120,9 @@ impl RefNum for Fp {
 impl RefNum for F {
     fn close(self, o: F, tol: f64) -> bool {
         (self.0 - o.0).abs() <= tol
+    }
+    fn approx_abs(self) -> f64 {
+        self.0.abs()
     }
 }
 
@@ -507,7 +514,9 @@ fn gen_float<T: Fl + std::ops::Add<Output = T> + std::ops::Mul<Output = T>>(rng:
     };
     let axis_k = [axis[0] * k, axis[1] * k, axis[2] * k];
     let v = [T::of(rng.f64_in(-3.0, 3.0)), T::of(rng.f64_in(-3.0, 3.0)), T::of(rng.f64_in(-3.0, 3.0))];
-    let v2 = [T::of(rng.f64_in(-3.0, 3.0)), T::of(rng.f64_in(-3.0, 3.0))];
+    // a quarter of the 2-D vectors are very long or very short (their squared length is no ordinary number)
+    let s2 = if rng.chance(1, 4) { 10f64.powf(if T::EPS > 1e-10 { rng.f64_in(-30.0, 30.0) } else { rng.f64_in(-250.0, 250.0) }) } else { 1.0 };
+    let v2 = [T::of(rng.f64_in(-3.0, 3.0) * s2), T::of(rng.f64_in(-3.0, 3.0) * s2)];
     let mut m0 = [[T::of(0.0); 4]; 4];
     for row in m0.iter_mut() {
         for e in row.iter_mut() {
@@ -877,6 +886,12 @@ fn check_2d<T: El, M2, M3>(
     let rv = g!(sub, cfg, idx, ty, cs, "Vec2::rotated_z".to_string(), Vec2 { x: v2[0], y: v2[1] }.rotated_z(a.tok));
     let rv = [rv.x.r(), rv.y.r()];
     let v2r = [v2[0].r(), v2[1].r()];
+    // a rotation is linear: the error allowed is relative to the size of the vector, whatever that size
+    // (the float generator draws lengths over the whole range of the type: seeded change C04_M)
+    let tol = {
+        let vs = v2r[0].approx_abs().max(v2r[1].approx_abs());
+        if vs > 0.0 { tol * vs.max(f64::MIN_POSITIVE) } else { tol }
+    };
     if !vec_close(rv, matvec(a2, v2r), 16.0 * tol) {
         fails.push(("Vec2::rotated_z".to_string(), "vector_rotation_differs_from_mat2_times_vector", format!("v = {:?}, v.rotated_z(a) = {:?}, Mat2::rotation_z(a) v = {:?}", v2r, rv, matvec(a2, v2r))));
     }
